@@ -110,6 +110,10 @@ func replay(in, out string) {
 			if st != nil {
 				t.Emit(ObsEv(c, st, "k", c.Keys, nil))
 			}
+		case "mcheck":
+			if st != nil {
+				t.Emit(McheckEv(c, st))
+			}
 		case "render":
 			if st != nil {
 				t.Emit(RenderEv(c, st))
